@@ -225,6 +225,16 @@ theorem checkAbort_ce (cfg : Cfg) (tl : Bool) (a : Nat) : Keep gCE (checkAbort c
   unfold checkAbort
   keep [setStop_ce, emit_ce]
 
+/-- everything in `_RetryState` but `last_stop_reason` -/
+def gNS : World → RState := fun w => { w.rs with lastStop := none }
+
+theorem checkAbort_ns (cfg : Cfg) (tl : Bool) (a : Nat) : Keep gNS (checkAbort cfg tl a) := by
+  unfold checkAbort
+  have h1 : ∀ s, Keep gNS (setStop s) := fun s => Keep.modify _ (fun _ => rfl)
+  have h2 : ∀ ev n s k e st c cl, Keep gNS (emit cfg tl ev n s k e st c cl) :=
+    fun ev n s k e st c cl => Keep.map (fun r : RState => { r with lastStop := none }) (emit_rs ..)
+  keep [h1, h2]
+
 theorem emitAbortedOnce_ce (cfg : Cfg) (tl : Bool) (a : Nat) : Keep gCE (emitAbortedOnce cfg tl a) := by
   unfold emitAbortedOnce
   keep [getRS_keep, setStop_ce, emit_ce]
